@@ -105,11 +105,18 @@ def load_store(path):
                 head, note = head.split(' :: ', 1)
             words = head.split(None, 1)
             mode = 'verify'
+            optional = False
+            if words[0] == 'optional':
+                # an entry for an item that exists only on some trees (a hand-written impl replacing a derive): no anchor error when absent
+                optional = True
+                head = words[1] if len(words) > 1 else ''
+                words = head.split(None, 1)
             if words[0] in ('skip', 'external', 'drop', 'extra', 'trusted'):
                 mode = words[0]
                 head = words[1] if len(words) > 1 else ''
             key = norm_key(head)
             cur = Entry(key, mode, note.strip())
+            cur.optional = optional
             cur.origin = '%s:%d' % (os.path.basename(path), ln)
             if mode == 'extra':
                 extras.append(cur)
@@ -298,6 +305,15 @@ def spec_impl_for(trait, ty):
         if t == 'PartialOrd':
             return ('impl vstd::std_specs::cmp::PartialOrdSpecImpl<%s> for %s {\n    open spec fn obeys_partial_cmp_spec() -> bool { false }\n'
                     '    open spec fn partial_cmp_spec(&self, other: &%s) -> Option<Ordering> { arbitrary() }\n}' % (x, ty, x))
+    if trait == 'PartialOrd':      # hand-written impl with Rhs = Self (normally derived)
+        return ('impl vstd::std_specs::cmp::PartialOrdSpecImpl<%s> for %s {\n    open spec fn obeys_partial_cmp_spec() -> bool { false }\n'
+                '    open spec fn partial_cmp_spec(&self, other: &%s) -> Option<Ordering> { arbitrary() }\n}' % (ty, ty, ty))
+    if trait == 'PartialEq':
+        return ('impl vstd::std_specs::cmp::PartialEqSpecImpl<%s> for %s {\n    open spec fn obeys_eq_spec() -> bool { false }\n'
+                '    open spec fn eq_spec(&self, other: &%s) -> bool { arbitrary() }\n}' % (ty, ty, ty))
+    if trait == 'Ord':
+        return ('impl vstd::std_specs::cmp::OrdSpecImpl for %s {\n    open spec fn obeys_cmp_spec() -> bool { false }\n'
+                '    open spec fn cmp_spec(&self, other: &%s) -> Ordering { arbitrary() }\n}' % (ty, ty))
     if trait == 'Neg':
         return ('impl vstd::std_specs::ops::NegSpecImpl for %s {\n    open spec fn obeys_neg_spec() -> bool { false }\n'
                 '    open spec fn neg_req(self) -> bool { true }\n    open spec fn neg_spec(self) -> %s { arbitrary() }\n}' % (ty, ty))
@@ -582,7 +598,7 @@ def emit_module(unit, mod, path, strict, entries, extras):
         add_ghost_fn_items(unit, mod, reindent(ex.extra, indent), start, ex.origin)
     unit.add('}')
     for k, e in entries.items():
-        if not e.used:
+        if not e.used and not getattr(e, 'optional', False):
             unit.problems.append('contract-store entry %s (%s) matches no item in %s: anchor lost' % (k, e.origin, os.path.basename(path)))
 
 
